@@ -1,8 +1,99 @@
 import JokerVerif.Drive.Common
-/-! Driver handlers for C05 (to be filled in). -/
+import JokerVerif.Model.Hist
+/-! Driver handlers for C05: execute the helper machine of `Model/Hist.lean`.
+
+Scalars are tokens (`Nat`): a library row is represented by its index, the "fresh" value of a row (what a
+pristine helper returns for that row alone, measured by the harness on the real code) by its 64-bit pattern.
+The external routines and the numeric core are instantiated so that the three buffers a step rewrites carry
+the identity of the current row and everything the previous rows left behind stays in `work` — the model's
+answer is computed by really running `runMarg` / `runBatches` / `runOps` through dirty helpers. -/
 open Lean Drive
+
 namespace Drive
 
-def histOps : List (String × H) := []
+private def hX : Hist.Ext Nat :=
+  ⟨fun _ _ θ => [θ.P], fun _ _ _ P e => P + e, fun iv s => iv + s⟩
+
+private def hTheta (row : Nat) : Hist.Theta Nat := ⟨row, 0, 0, 0, row⟩
+
+private def hImm : Hist.Imm Nat := ⟨[0], [0], [1], 0, [], [0], [], false, 0, 0, 0, 0⟩
+
+private def hWorker (fresh : Array Nat) : Hist.Worker Nat :=
+  fun _ row0 sIvar lam0 => (fresh.getD (row0.headD 0) 0, row0 ++ sIvar ++ [lam0])
+
+private def hPostWorker (fresh : Array Nat) : Hist.PostWorker Nat :=
+  fun _ row0 sIvar lam0 z => (fresh.getD (row0.headD 0) 0 :: z, sIvar ++ row0 ++ [lam0])
+
+/-- helpers for the blocks of one call: `reuse` = one object serving every block in turn (serial pool),
+otherwise a rebuilt helper per task (pickled to a worker process) -/
+private def helpersFor (w : Hist.Worker Nat) (reuse : Bool) (h0 : Hist.Helper Nat) :
+    List (List (Hist.Theta Nat)) → List (Hist.Helper Nat) × Hist.Helper Nat
+  | [] => ([], h0)
+  | p :: ps =>
+    if reuse then
+      let h1 := (Hist.runMarg hX w h0 p).1
+      let r := helpersFor w reuse h1 ps
+      (h0 :: r.1, r.2)
+    else
+      let r := helpersFor w reuse h0 ps
+      (Hist.rebuild 0 (Hist.reduce h0) :: r.1, r.2)
+
+/-- `hist.run`: a sequence of `marginal_ln_likelihood`-like calls on one sampler.
+`rows` = library rows in request order, `nb` = n_batches (null → max(1, poolSize)), `reuse` as above. -/
+def histRunOp : H := fun j => do
+  let fresh ← getNats j "fresh"
+  let calls ← getArr j "calls"
+  let w := hWorker fresh
+  let mut h : Hist.Helper Nat := ⟨hImm, ⟨[], [], 0, []⟩⟩
+  let mut outs : Array Json := #[]
+  for c in calls do
+    let rows ← getNats c "rows"
+    let nb ← optInt c "nb"
+    let ps ← getInt c "poolSize"
+    let reuse ← getBool c "reuse"
+    let nbEff := Batch.runWorkerNBatches nb ps
+    let lib := rows.toList.map hTheta
+    let parts := Hist.blocks lib nbEff
+    let (hs, hEnd) := helpersFor w reuse h parts
+    let lls := Hist.runBatches hX w hs parts
+    h := hEnd
+    outs := outs.push (Json.mkObj [("lls", jNats lls),
+      ("tasks", jPairs (Batch.batchTasks rows.size nbEff 0))])
+  return Json.mkObj [("calls", Json.arr outs)]
+
+/-- `hist.ops`: an arbitrary interleaving of marginal-likelihood and posterior-draw steps on ONE helper that
+starts with garbage in its scratch buffers; answer = outputs in order -/
+def histOpsOp : H := fun j => do
+  let fresh ← getNats j "fresh"
+  let pfresh ← getNats j "postFresh"
+  let ops ← getArr j "ops"
+  let mut l : List (Hist.Op Nat) := []
+  for o in ops do
+    let k ← getStr o "k"
+    let row ← getNat o "row"
+    l := l ++ [if k == "post" then Hist.Op.post (hTheta row) [] else Hist.Op.marg (hTheta row)]
+  let h : Hist.Helper Nat := ⟨hImm, ⟨[77], [78], 79, [80, 81]⟩⟩
+  let r := Hist.runOps hX (hWorker fresh) (hPostWorker pfresh) h l
+  let out := r.2.map fun
+    | .ll v => jNat v
+    | .row rr => jNats rr
+  return Json.mkObj [("out", Json.arr out.toArray)]
+
+private def fmax (l : List Float) : Float :=
+  match l with
+  | [] => 0.0
+  | a :: r => r.foldl (fun m x => if m < x then x else m) a
+
+/-- `hist.accepted`: the rejection step on given likelihoods and uniforms (IEEE doubles),
+`exp(ll - max) > u`, truncated to `maxPost` -/
+def histAcceptedOp : H := fun j => do
+  let lls ← getFloats j "lls"
+  let uu ← getFloats j "uu"
+  let mp ← getNat j "maxPost"
+  let acc := Hist.accepted (fun ll mx u => decide (Float.exp (ll - mx) > u)) fmax lls.toList uu.toList mp
+  return Json.mkObj [("accepted", jNats acc)]
+
+def histOps : List (String × H) :=
+  [("hist.run", histRunOp), ("hist.ops", histOpsOp), ("hist.accepted", histAcceptedOp)]
 
 end Drive
